@@ -13,8 +13,12 @@ def run(name, pkg, fn, quick, thorough=None, reach=None, bounds=""):
         r["reach"] = reach
     return r
 
+REGEX_PLANS = {"C05", "C06", "C11", "C17", "C19", "C07"}
+
 def write(prop, runs, assumptions, outside, **kw):
     plan = {"property": prop, "runs": runs, "assumptions": assumptions, "outside_bounds": outside}
+    if prop in REGEX_PLANS:
+        plan["logic"] = "QF_BV"
     plan.update(kw)
     with open(os.path.join(out, prop + ".json"), "w") as f:
         json.dump(plan, f, indent=1)
@@ -205,3 +209,16 @@ write("C13", c13, ["cancellation is injected once every goroutine of the worker 
                    "'returns within a bounded time' is decided as: in every schedule the worker's call returns (no goroutine is left blocked forever on the path to its return)",
                    "FIFO model as in C12 (Close wakes a blocked Read); go-libaudit's reassembler runs from its real source; stubs: zap, time.NewTicker (environment ticks), sync"],
       ["the numeric time bound", "cancellation in the middle of delivering a record (not a blocking state)"], site_prefix="c13.")
+
+# ---- C03
+c03 = []
+for prog, nm, pq, pt in ((1, "login-vs-session", 2, -1), (2, "plus-other-session", 1, 2), (3, "plus-cleanup", 1, 2), (4, "all-four", 0, 1)):
+    c03.append(run(nm, TRK, "VerifC03Concurrent", {"params": {"PROG": prog}, "preempt": pq, "max_steps": 20000000}, {"params": {"PROG": prog}, "preempt": pt, "max_steps": 50000000},
+                   reach=["c03.all-returned"] + (["c03.matching-pid"] if prog <= 2 else []),
+                   bounds="program %d: RemoteLogin(p) || AuditdEvent(LOGIN s,p'); AuditdEvent(e,s)%s%s; p,p' symbolic (equal and unequal); interleavings at lock-acquisition granularity, preemption bound %s (quick) / %s (thorough)" % (
+                       prog, " || two events of another session" if prog in (2, 4) else "", " || both cleanup calls" if prog in (3, 4) else "", pq, "unbounded" if pt < 0 else pt)))
+write("C03", c03, ["the sequential reference is computed by the same harness on fresh trackers for every order of the same deliveries; observations = emissions in order with session, action and identity, plus a probe event that exposes the residual state",
+                   "cleanup cut-offs are far in the past or far in the future, so the outcome of a run does not depend on exact clock readings",
+                   "code between two synchronisation operations runs atomically in the engine; data-race freedom itself is NOT decided here (no happens-before detector in the engine) - that half of the statement is outside this check",
+                   "stubs: sync.Mutex as an engine object (every Lock is a schedule point), zap, uuid, time.Now"],
+      ["more than one login or more than two sessions in flight", "weak-memory effects", "the 'no data race' clause (needs the race detector, i.e. a different technique)"], site_prefix="c03.")
